@@ -144,6 +144,9 @@ func (s *Server) serve(sc *ServerConn) {
 		}
 		sc.callIDs[req.CallID] = true
 		c.logFrame(req)
+		if t := c.Tap; t != nil {
+			t(req)
+		}
 		rep := c.handle(req)
 		if rep == nil {
 			continue
@@ -165,6 +168,9 @@ type Reply struct {
 	Raw      []byte // send these bytes verbatim instead (complete frame(s))
 	// Hold, if non-nil, delays the reply until the channel is closed.
 	Hold <-chan struct{}
+	// DefaultThenKill: execute the request normally, then close the
+	// connection instead of answering (the response is lost).
+	DefaultThenKill bool
 	// HoldDefault: handle the request normally, but hold its reply until the
 	// channel is closed (a server that is slow to answer).
 	HoldDefault <-chan struct{}
